@@ -13,7 +13,8 @@ def run(ctx, model_ok):
         ctx.cov["evaluations"] = st["ops"]
         ctx.cov["distinct_nontrivial"] = st["distinct_states"]
         ctx.cov["rule"] = ("seeded random histories on random collection trees (≤6 nodes, nesting ≤ depth of a random recursive tree), "
-                           "70% in the equal-path-length regime operated at the root, rest unrestricted; distinct = distinct full tree states")
+                           "70% in the equal-path-length regime operated at the root (incl. the rotate_from_* entry points with raw arguments, add of a fresh object / nested "
+                           "collection followed by a position assignment that restores the common length, remove), rest unrestricted; distinct = distinct full tree states")
         ctx.cov["traces_validated_against_impl"] = st["histories"]
         ctx.cov["samples"] = st.pop("samples")
         ctx.cov["correspondence"] = st
@@ -28,9 +29,12 @@ def run(ctx, model_ok):
     ctx.cov.setdefault("distinct_nontrivial", ost["oracle_ops"])
     ctx.cov.setdefault("samples", [{"oracle": ost}])
     ctx.cov["not_shown"] = [
-        "reset_path on a collection is the composition position=(0,0,0); orientation=None, each proved; the composed statement is not spelled out",
-        "histories: each single operation is proved; the composed index map over a whole history is not stated as one theorem",
-        "own_sensor_field_invariant needs C03 (covariance) for the field kernels; observed by the oracle only",
+        "histories (history_refines_spec): operations addressed to the collection itself, plus add / remove of its children; an operation addressed to a "
+        "descendant changes that descendant's relative pose by design (child_operation_is_local) — a history is cut there and the theorem applies again from the "
+        "next state whose members share one path length; the composed index map of a history is the fold of the per-step maps (specStep), not a closed formula",
+        "own_sensor_field_invariant is stated for rotate (every rotate_from_* form, anchor, start) on the group carrier; for move / setters / whole histories the same "
+        "conclusion follows from reading_eq_of_relAt_eq with the relative-pose equalities of history_refines_spec, not instantiated as separate theorems; "
+        "float rounding: oracle (coll.getB with an internal sensor, 1e-9)",
     ]
     ctx.assumptions += ["scipy Rotation is a group acting linearly on R^3", "np.pad(edge)/slicing behave as edgePad/mapSlice"]
 
